@@ -3,159 +3,7 @@
 // column partition) the real amgcl::mpi code runs under several schedules / completion modes
 // (all cases) and under a preemption- and deviation-bounded DFS over rank interleavings and
 // eager/late completions (a slice of the cases).  Integer values => oracle is ==.
-#include <mpi.h>
-#include <amgcl/backend/builtin.hpp>
-#include <amgcl/adapter/crs_tuple.hpp>
-#include <amgcl/mpi/util.hpp>
-#include <amgcl/mpi/distributed_matrix.hpp>
-#include <amgcl/mpi/inner_product.hpp>
-#include <cstring>
-#include "vf.hpp"
-#include "mk.hpp"
-#include "vsched.hpp"
-
-using namespace amgcl;
-typedef backend::builtin<double> B;
-typedef backend::crs<double> Crs;
-typedef mpi::distributed_matrix<B> DM;
-
-static inline double ival(int i, int j, int salt) { int v = 1 + (3 * i + 5 * j + salt) % 4; return ((i + 2 * j + salt) & 1) ? -v : v; }
-
-struct Part { std::vector<int> b; int k() const { return (int)b.size() - 1; } };   // b[0]=0 .. b[k]=n
-static void compositions(int n, int k, std::vector<Part> &out) {
-    std::vector<int> cut(k + 1, 0); cut[k] = n;
-    std::function<void(int)> rec = [&](int i) {
-        if (i == k) { Part p; p.b = cut; out.push_back(p); return; }
-        for (int c = cut[i - 1]; c <= n; ++c) { cut[i] = c; rec(i + 1); }
-    };
-    if (k == 1) { Part p; p.b = {0, n}; out.push_back(p); return; }
-    rec(1);
-}
-static std::string pshow(const Part &p) { vf::KS k; for (size_t i = 0; i < p.b.size(); ++i) k << (i ? "," : "") << p.b[i]; return k; }
-
-// results written by the ranks, read by the harness after the run
-struct Out {
-    mk::Dense<double> T, AAt, AtA, S, Cp;      // assembled global results
-    std::vector<std::string> err;               // structural errors seen by ranks
-    std::vector<double> y, r;                   // spmv / residual (by global row)
-    std::vector<double> ip, gersh, power;       // per rank scalars
-    std::vector<long> grows, gcols, gnnz;
-    std::vector<std::string> rr;                // remote_rows verdict per rank
-    std::vector<std::string> exc;
-};
-
-static void assemble(const DM &D, int rbeg, mk::Dense<double> &G, std::vector<std::string> &err, const char *what) {
-    const Crs &L = *D.local(); const Crs &R = *D.remote();
-    ptrdiff_t shift = D.loc_col_shift();
-    for (size_t i = 0; i < L.nrows; ++i) {
-        for (auto j = L.ptr[i]; j < L.ptr[i+1]; ++j) {
-            long c = L.col[j] + shift;
-            if (c < 0 || c >= G.n || rbeg + (int)i >= G.m) { err.push_back(std::string(what) + ": local column/row out of range"); continue; }
-            if (G.st(rbeg + i, c)) err.push_back(std::string(what) + ": duplicate entry");
-            G.st(rbeg + i, c) = 1; G(rbeg + i, c) = L.val[j];
-        }
-        for (auto j = R.ptr[i]; j < R.ptr[i+1]; ++j) {
-            long c = R.col[j];
-            if (c < 0 || c >= G.n) { err.push_back(std::string(what) + ": remote column out of range"); continue; }
-            if (c >= shift && c < shift + (long)L.ncols) err.push_back(std::string(what) + ": remote part holds a locally owned column");
-            if (G.st(rbeg + i, c)) err.push_back(std::string(what) + ": duplicate entry");
-            G.st(rbeg + i, c) = 1; G(rbeg + i, c) = R.val[j];
-        }
-    }
-}
-
-struct Case { int m, n; uint64_t mask; Part rp, cp; mk::Dense<double> G; bool square_diag; int ops = 31; };
-// ops bits: 1 transpose+remote_rows, 2 products, 4 scale/sort/backend copy, 8 spectral radius, 16 spmv/residual/inner product
-
-static void rank_body(int rank, const Case &cs, Out &o) {
-    try {
-        mpi::communicator comm(MPI_COMM_WORLD);
-        int rb = cs.rp.b[rank], re = cs.rp.b[rank + 1], cb = cs.cp.b[rank], ce = cs.cp.b[rank + 1];
-        // local strip with global column numbers
-        mk::Dense<double> strip(re - rb, cs.n);
-        for (int i = rb; i < re; ++i) for (int j = 0; j < cs.n; ++j) if (cs.G.st(i, j)) { strip.st(i - rb, j) = 1; strip(i - rb, j) = cs.G(i, j); }
-        auto Sm = mk::to_crs<double>(strip);
-        auto A = std::make_shared<DM>(comm, *Sm, (ptrdiff_t)(ce - cb));
-        o.grows[rank] = A->glob_rows(); o.gcols[rank] = A->glob_cols(); o.gnnz[rank] = A->glob_nonzeros();
-        // transpose: rows of A^T are distributed like the columns of A
-        std::shared_ptr<DM> At;
-        if (cs.ops & 3) { At = mpi::transpose(*A); assemble(*At, cb, o.T, o.err, "transpose"); }
-        // products
-        if (cs.ops & 2) {
-            auto P1 = mpi::product(*A, *At);  assemble(*P1, rb, o.AAt, o.err, "A*At");
-            auto P2 = mpi::product(*At, *A);  assemble(*P2, cb, o.AtA, o.err, "At*A");
-        }
-        // scale + sort_rows on a copy built from the same strip
-        if (cs.ops & 4) {
-            auto A2 = std::make_shared<DM>(comm, *Sm, (ptrdiff_t)(ce - cb));
-            mpi::scale(*A2, 2.0); mpi::sort_rows(*A2);
-            assemble(*A2, rb, o.S, o.err, "scale");
-            for (auto M : {A2->local().get(), A2->remote().get()})
-                for (size_t i = 0; i < M->nrows; ++i) for (auto j = M->ptr[i] + 1; j < M->ptr[i+1]; ++j) if (M->col[j-1] >= M->col[j]) o.err.push_back("sort_rows: row not sorted");
-        }
-        // copy between backends (other index types)
-        if (cs.ops & 4) {
-            typedef backend::builtin<double, int, int> B2;
-            mpi::distributed_matrix<B2> A3(*A);
-            if (A3.glob_rows() != A->glob_rows() || A3.glob_cols() != A->glob_cols() || A3.glob_nonzeros() != A->glob_nonzeros() || A3.loc_rows() != A->loc_rows()) o.err.push_back("backend copy: sizes differ");
-            const auto &L3 = *A3.local(); const Crs &L = *A->local();
-            if (L3.nnz != L.nnz) o.err.push_back("backend copy: local nnz differs");
-            else for (size_t j = 0; j < L.nnz; ++j) if (L3.col[j] != L.col[j] || L3.val[j] != L.val[j]) { o.err.push_back("backend copy: local entries differ"); break; }
-            const auto &R3 = *A3.remote(); const Crs &R = *A->remote();
-            if (R3.nnz != R.nnz) o.err.push_back("backend copy: remote nnz differs");
-            else for (size_t j = 0; j < R.nnz; ++j) if (R3.col[j] != R.col[j] || R3.val[j] != R.val[j]) { o.err.push_back("backend copy: remote entries differ"); break; }
-            for (size_t i = 0; i < L.nrows; ++i) for (auto j = L3.ptr[i]; j < L3.ptr[i+1]; ++j) {
-                long c = L3.col[j] + A3.loc_col_shift();
-                if (o.Cp.st(rb + i, c)) o.err.push_back("backend copy: duplicate");
-                o.Cp.st(rb + i, c) = 1; o.Cp(rb + i, c) = L3.val[j];
-            }
-            for (size_t i = 0; i < R.nrows; ++i) for (auto j = R3.ptr[i]; j < R3.ptr[i+1]; ++j) { o.Cp.st(rb + i, R3.col[j]) = 1; o.Cp(rb + i, R3.col[j]) = R3.val[j]; }
-        }
-        // remote_rows: rows of At that correspond to the remote columns of A
-        if (cs.ops & 1) {
-            auto Rr = mpi::remote_rows(A->cpat(), *At);
-            std::vector<ptrdiff_t> need(A->remote()->col, A->remote()->col + A->remote()->nnz);
-            std::sort(need.begin(), need.end()); need.erase(std::unique(need.begin(), need.end()), need.end());
-            std::string v = "ok";
-            if (Rr->nrows != need.size()) v = "row count";
-            else for (size_t i = 0; i < need.size() && v == "ok"; ++i) {
-                // row need[i] of A^T = column need[i] of A
-                std::vector<std::pair<long,double>> want, got;
-                for (int q = 0; q < cs.m; ++q) if (cs.G.st(q, need[i])) want.push_back({q, cs.G(q, need[i])});
-                for (auto j = Rr->ptr[i]; j < Rr->ptr[i+1]; ++j) got.push_back({Rr->col[j], Rr->val[j]});
-                std::sort(got.begin(), got.end());
-                if (want != got) v = "row content";
-            }
-            o.rr[rank] = v;
-        }
-        // spectral radius
-        if ((cs.ops & 8) && cs.square_diag && cs.rp.b == cs.cp.b) {
-            o.gersh[rank] = backend::spectral_radius<true>(*A, 0);
-            o.power[rank] = backend::spectral_radius<true>(*A, 3);
-        }
-        // spmv / residual / inner product on the backend copy
-        if (!(cs.ops & 16)) return;
-        A->move_to_backend(B::params(), true);
-        int nr = re - rb, nc = ce - cb;
-        backend::numa_vector<double> x(nc), y(nr), f(nr), r(nr);
-        for (int j = 0; j < nc; ++j) x[j] = 1 + ((cb + j) * 3) % 5;
-        for (int i = 0; i < nr; ++i) { y[i] = 2 - ((rb + i) % 3); f[i] = 7 + (rb + i); }
-        backend::spmv(2.0, *A, x, -1.0, y);
-        backend::residual(f, *A, x, r);
-        for (int i = 0; i < nr; ++i) { o.y[rb + i] = y[i]; o.r[rb + i] = r[i]; }
-        // beta = 0 must ignore previous content
-        { backend::numa_vector<double> z(nr); for (int i = 0; i < nr; ++i) z[i] = std::numeric_limits<double>::quiet_NaN(); backend::spmv(1.0, *A, x, 0.0, z);
-          for (int i = 0; i < nr; ++i) if (!(z[i] == (o.y[rb + i] + (2 - ((rb + i) % 3))) / 2.0)) { o.err.push_back("spmv beta=0 depends on previous output content"); break; } }
-        if (cs.m == cs.n) {
-            // inner product of two vectors distributed like the rows (needs equal lengths)
-            backend::numa_vector<double> u(nr), w(nr);
-            for (int i = 0; i < nr; ++i) { u[i] = 1 + (rb + i) % 4; w[i] = 3 - (rb + i) % 5; }
-            mpi::inner_product ip(comm);
-            o.ip[rank] = ip(u, w);
-        }
-    } catch (const vs::Deadlock &) { throw; }
-    catch (const std::exception &e) { o.exc[rank] = e.what(); }
-}
+#include "C11_body.hpp"
 
 struct Env { int policy, send_mode, recv_mode; bool reverse; const char *name; };
 static const Env ENVS[] = {{0,0,0,false,"fifo/eager"}, {1,0,0,true,"reverse/eager"}, {0,1,1,false,"fifo/late"}, {2,1,0,true,"preempt-always/late-send"}};
@@ -197,14 +45,6 @@ static std::string judge(const Case &cs, const Out &o) {
         }
     }
     return "";
-}
-
-static Out fresh_out(const Case &cs) {
-    int k = cs.rp.k();
-    Out o; o.T = mk::Dense<double>(cs.n, cs.m); o.AAt = mk::Dense<double>(cs.m, cs.m); o.AtA = mk::Dense<double>(cs.n, cs.n); o.S = mk::Dense<double>(cs.m, cs.n); o.Cp = mk::Dense<double>(cs.m, cs.n);
-    o.y.assign(cs.m, 0); o.r.assign(cs.m, 0); o.ip.assign(k, 0); o.gersh.assign(k, 0); o.power.assign(k, 0);
-    o.grows.assign(k, -1); o.gcols.assign(k, -1); o.gnnz.assign(k, -1); o.rr.assign(k, "not run"); o.exc.assign(k, "");
-    return o;
 }
 
 static std::string run_env(const Case &cs, const Env &e, const std::vector<int> *prefix = nullptr, bool explore_completion = false) {
@@ -306,3 +146,4 @@ int main(int argc, char **argv) {
     }
     return vf::finish();
 }
+
